@@ -137,33 +137,7 @@ def frame_bucket(e):
     return '%s@%s' % (type(e).__name__, where)
 
 
-class _BudgetExceeded(BaseException):
-    pass
-
-
-class time_budget(object):
-    """Abandon a single retrieval after `seconds` (main thread of the worker process only)."""
-
-    def __init__(self, seconds):
-        self.seconds = seconds
-        self.armed = False
-
-    def __enter__(self):
-        import signal
-        import threading
-        if threading.current_thread() is threading.main_thread():
-            def onalarm(signum, frame):
-                raise _BudgetExceeded()
-            self.old = signal.signal(signal.SIGALRM, onalarm)
-            signal.setitimer(signal.ITIMER_REAL, self.seconds)
-            self.armed = True
-
-    def __exit__(self, *exc):
-        if self.armed:
-            import signal
-            signal.setitimer(signal.ITIMER_REAL, 0)
-            signal.signal(signal.SIGALRM, self.old)
-        return False
+from vlib.framework import time_budget, BudgetExceeded as _BudgetExceeded     # noqa: E402
 
 
 def check_object(qual, obj, stats, case, dotted=False, src=None):
